@@ -30,6 +30,13 @@ import (
 
 func TestMain(m *testing.M) {
 	res.Register()
+
+	if os.Getenv("VERIF_CHILD") == "c13server" {
+		childServe()
+
+		return
+	}
+
 	os.Exit(m.Run())
 }
 
@@ -132,6 +139,10 @@ func TestC13(t *testing.T) {
 		}
 
 		wg.Wait()
+
+		// real transport (grpc-go over unix sockets, byte-level proxy, child server processes)
+		c.Require("real_cases", "real_connections_cut", "real_server_restarts", "real_mid_stream_cuts", "real_resumed_transparently", "real_terminal_errored_mandatory")
+		realFamily(c)
 	})
 }
 
